@@ -69,6 +69,13 @@ def eval_scaling(case):
     dflt = np.asarray(fc.forecast_cum(t), dtype=float)
     if not np.array_equal(dflt, got):
         viol.append(V("defaults-to-fitted", "forecast_cum(t) without arguments does not use M_/tau_", case=case))
+    # history: the fitted values change (a second well is fitted) and the same horizon is forecast again
+    fc.M_, fc.tau_ = 3.0 * M, 2.0 * tau
+    again = np.asarray(fc.forecast_cum(t), dtype=float)
+    want2 = 3.0 * M * np.asarray(rf(t / (2.0 * tau)), dtype=float)
+    if not np.all(np.abs(again - want2) <= 1e-12 * np.abs(want2).max()):
+        viol.append(V("defaults-follow-latest-fit", "after M_/tau_ changed, forecast_cum(t) on the same horizon still "
+                      f"returns the earlier forecast (max diff {np.max(np.abs(again - want2)):.3g})", case=case))
     return {"violations": viol, "outcome": "scaling", "key": ("s", case["curve"], M, tau, s)}
 
 
